@@ -139,7 +139,8 @@ CHECKS = {
              "ASCII), name_safe, section_read_back / headers_read_back (an RFC 5322 reader recovers exactly the stored fields in order and "
              "the body: nothing supplied can add, split, truncate or terminate a field), names_stay_unique, mailbox_header_wf (the same well-formedness "
              "for From / Sender / To / Cc / Bcc / Reply-To under every display name: a model of Mailbox(es)::encode with quoted_string::encode's four "
-             "strategies and the repaired write_unbreakable, Model/MailboxEnc.lean, compared octet for octet with the code). Line-length bounds (78 / 998) "
+             "strategies and the repaired write_unbreakable, Model/MailboxEnc.lean, compared octet for octet with the code), address_list_folded (every line of a header with any number of bare addresses is within 78 "
+             "octets: the repaired folding, proved). The other line-length bounds (78 / 998) "
              "are checked on real outputs only (four narrow known findings). Correspondence: names of every length x adversarial texts "
              "(all alignments of 1-4 byte characters, CR/LF/NUL/controls, up to 64 KiB), all ASCII names up to length 2, random "
              "insert/remove/get sequences; the nine typed text headers and Content-Type through their own display() (compared with the encoder "
